@@ -251,6 +251,12 @@ struct ares_channeldata {
    * scan all connections) */
   ares_htable_asvp_t  *connnode_by_socket;
 
+  /* Connection whose input buffer is currently being processed by
+   * read_answers(), NULL otherwise.  Reset by ares_close_connection() so the
+   * reader can tell the connection was closed (and freed) by something a
+   * callback did, e.g. ares_cancel() or a failed write of a new query. */
+  ares_conn_t         *conn_reading;
+
   ares_sock_state_cb   sock_state_cb;
   void                *sock_state_cb_data;
 
